@@ -135,3 +135,7 @@ mod tests {
         }
     }
 }
+
+#[cfg(kani)]
+#[path = "/verif/kani/parquet/util/bit_pack.rs"]
+mod verif_kani;
